@@ -47,6 +47,8 @@ pub enum Op {
     CreateBuilder(u8, u8),
     BuilderSet(u8, Setter),
     BuilderHeader { b: u8, name: u8, value: u8, append: bool },
+    /// basic_auth (kind 0, with password; 1 without) or bearer_auth (2) on a builder: sets the Authorization field
+    BuilderAuth { b: u8, kind: u8, value: u8 },
     Prepare(u8),
     Send(u8, Probe),
     SendPrepared(u8, Probe),
@@ -61,7 +63,7 @@ pub struct Case {
 
 pub struct C16;
 
-const NAMES: &[&str] = &["accept", "user-agent", "accept-encoding", "x-a", "X-A", "x-b", "connection"];
+const NAMES: &[&str] = &["accept", "user-agent", "accept-encoding", "x-a", "X-A", "x-b", "connection", "authorization", "Authorization"];
 const VALUES: &[&str] = &["v1", "v2", "text/html", "", "gzip", "agent/1.0", "keep-alive"];
 const MAX_HEADERS: &[usize] = &[1, 3, 100];
 const MAX_REDIR: &[u32] = &[0, 1, 5];
@@ -527,6 +529,44 @@ impl World {
                     self.writes_after_derive += 1;
                 }
             }
+            Op::BuilderAuth { b, kind, value } => {
+                let live: Vec<usize> = self.builders.iter().enumerate().filter(|(_, b)| b.b.is_some()).map(|(i, _)| i).collect();
+                if !live.is_empty() {
+                    let j = live[*b as usize % live.len()];
+                    let o = &mut self.builders[j];
+                    let v = VALUES[*value as usize % VALUES.len()];
+                    let rb = o.b.take().unwrap();
+                    let b64 = |s: &str| {
+                        const T: &[u8] = b"ABCDEFGHIJKLMNOPQRSTUVWXYZabcdefghijklmnopqrstuvwxyz0123456789+/";
+                        let mut out = String::new();
+                        for c in s.as_bytes().chunks(3) {
+                            let n = (c[0] as u32) << 16 | (*c.get(1).unwrap_or(&0) as u32) << 8 | *c.get(2).unwrap_or(&0) as u32;
+                            out.push(T[(n >> 18) as usize & 63] as char);
+                            out.push(T[(n >> 12) as usize & 63] as char);
+                            out.push(if c.len() > 1 { T[(n >> 6) as usize & 63] as char } else { '=' });
+                            out.push(if c.len() > 2 { T[n as usize & 63] as char } else { '=' });
+                        }
+                        out
+                    };
+                    let want = match kind % 3 {
+                        0 => {
+                            o.b = Some(rb.basic_auth("user", Some(v)));
+                            format!("Basic {}", b64(&format!("user:{v}")))
+                        }
+                        1 => {
+                            o.b = Some(rb.basic_auth(v, None::<&str>));
+                            format!("Basic {}", b64(&format!("{v}:")))
+                        }
+                        _ => {
+                            o.b = Some(rb.bearer_auth(format!("tok-{v}")));
+                            format!("Bearer tok-{v}")
+                        }
+                    };
+                    model_set(&mut o.h, "authorization", want.into_bytes());
+                    self.nontrivial = true;
+                    self.writes_after_derive += 1;
+                }
+            }
             Op::Prepare(j) | Op::Send(j, _) => {
                 let live: Vec<usize> = self.builders.iter().enumerate().filter(|(_, b)| b.b.is_some()).map(|(i, _)| i).collect();
                 if !live.is_empty() {
@@ -589,6 +629,7 @@ fn op() -> BoxedStrategy<Op> {
         4 => (any::<u8>(), any::<u8>()).prop_map(|(i, m)| Op::CreateBuilder(i, m)),
         5 => (any::<u8>(), setter()).prop_map(|(j, s)| Op::BuilderSet(j, s)),
         4 => (any::<u8>(), any::<u8>(), any::<u8>(), any::<bool>()).prop_map(|(b, name, value, append)| Op::BuilderHeader { b, name, value, append }),
+        2 => (any::<u8>(), 0u8..3, any::<u8>()).prop_map(|(b, kind, value)| Op::BuilderAuth { b, kind, value }),
         2 => any::<u8>().prop_map(Op::Prepare),
         3 => (any::<u8>(), probe()).prop_map(|(j, p)| Op::Send(j, p)),
         2 => (any::<u8>(), probe()).prop_map(|(k, p)| Op::SendPrepared(k, p)),
